@@ -1,6 +1,7 @@
 import GJS.Props.C02
 import GJS.Props.C03
 import GJS.Props.C04
+import GJS.Props.C08
 import GJS.Cert
 import GJS.Spec
 /-
@@ -984,6 +985,75 @@ theorem arr_decode_passes (env : Env) (defs : Spec.Defs) (t : GoTy) (ps : Schema
       rw [C07.depth1_exact, decodeElems_length .json env t xs g vs hr', hmn, hmx]
       exact hcount
 
+/-! ### string enums -/
+
+theorem enumStrs_eq : ∀ (vs : List Json) (l : List String), enumStrs vs = some l → vs = l.map Json.str := by
+  intro vs
+  induction vs with
+  | nil => intro l h; simp [enumStrs] at h; subst h; rfl
+  | cons v rest ih =>
+    intro l h
+    cases v with
+    | str x =>
+      simp only [enumStrs, Option.map_eq_some_iff] at h
+      obtain ⟨l', hl', rfl⟩ := h
+      simp [ih l' hl']
+    | null => simp [enumStrs] at h
+    | bool b => simp [enumStrs] at h
+    | num q => simp [enumStrs] at h
+    | arr xs => simp [enumStrs] at h
+    | obj kvs => simp [enumStrs] at h
+
+/-- what `strEnumJustified` gives: the table of the declaration IS the schema's list, and all of it are strings -/
+theorem strEnumJustified_eq (vals : List Json) (s : Schema) (h : strEnumJustified vals s = true) :
+    ∃ l : List String, vals = l.map Json.str ∧ s.node.enum = some vals := by
+  unfold strEnumJustified at h
+  cases h1 : enumStrs vals with
+  | none => simp [h1] at h
+  | some l =>
+    cases h2 : s.node.enum with
+    | none => simp [h1, h2] at h
+    | some vs =>
+      simp only [h1, h2, beq_iff_eq] at h
+      have e1 := enumStrs_eq vals l h1
+      have e2 := enumStrs_eq vs l h
+      exact ⟨l, e1, by rw [e1, e2]⟩
+
+/-- a member of an all-string list is a string -/
+theorem mem_strs_is_str (l : List String) (j : Json) (h : (l.map Json.str).any (fun v => v == j) = true) :
+    ∃ x, j = .str x := by
+  simp only [List.any_map, List.any_eq_true, Function.comp] at h
+  obtain ⟨x, _, hx⟩ := h
+  cases j with
+  | str y => exact ⟨y, rfl⟩
+  | null => simp [BEq.beq, Json.beq] at hx
+  | bool b => simp [BEq.beq, Json.beq] at hx
+  | num q => simp [BEq.beq, Json.beq] at hx
+  | arr xs => simp [BEq.beq, Json.beq] at hx
+  | obj kvs => simp [BEq.beq, Json.beq] at hx
+
+theorem valid_enum_parts (defs : Spec.Defs) (s : Schema) (j : Json) (F : Nat) (vs : List Json) (hr : s.node.ref = "")
+    (he : s.node.enum = some vs) (h : Spec.valid F defs s j = true) : vs.any (fun v => v == j) = true := by
+  cases F with
+  | zero => simp [Spec.valid] at h
+  | succ F =>
+    simp only [Spec.valid, hr, ne_eq, not_true_eq_false, ↓reduceIte, he, Bool.and_eq_true] at h
+    exact h.1.1.1.2
+
+/-- **a string-enum type accepts every valid value** -/
+theorem enum_decl_accepts (env : Env) (defs : Spec.Defs) (nm : String) (d : Decl) (vals : List Json) (ic : Bool)
+    (cs : List (String × String)) (ms : Bool) (s : Schema) (j : Json) (F : Nat)
+    (hres : env.resolve 8 nm = some d) (hbody : d.body = .enum vals false ic cs ms) (hty : d.ty = .string)
+    (hmeth : d.hasMethod = true) (hr : s.node.ref = "") (hj : strEnumJustified vals s = true)
+    (hv : Spec.valid F defs s j = true) : Acc .json env (.named nm) j := by
+  obtain ⟨l, hl, he⟩ := strEnumJustified_eq vals s hj
+  have hmem := valid_enum_parts defs s j F vals hr he hv
+  obtain ⟨x, rfl⟩ := mem_strs_is_str l j (hl ▸ hmem)
+  rw [acc_named_iff env nm d _ hres]
+  simp only [hmeth, ↓reduceIte]
+  obtain ⟨v, hv'⟩ := (C08.string_enum_method_exact .json env d vals ic cs ms x 0 hbody hty).mpr hmem
+  exact ⟨2, v, hv'⟩
+
 /-! ### the certificate with all three kinds of value validators -/
 
 /-- the check a value validator performs, on the field's value itself -/
@@ -1033,7 +1103,12 @@ theorem certAll_accepts (env : Env) (defs : Spec.Defs) :
         | some d =>
           simp only [hres] at hc
           cases hbody : d.body with
-          | enum a b c e g => simp [hbody] at hc
+          | enum vals wr ic cs ms =>
+            cases hty : d.ty <;> simp only [hbody, hty] at hc <;> try (simp at hc; done)
+            cases wr <;> simp only at hc <;> try (simp at hc; done)
+            simp only [Bool.and_eq_true, Bool.or_eq_true, beq_iff_eq, List.isEmpty_iff, Bool.not_eq_true'] at hc
+            obtain ⟨⟨⟨⟨⟨hmeth, _⟩, hj⟩, _⟩, _⟩, _⟩ := hc
+            exact enum_decl_accepts env defs nm d vals ic cs ms s j F hres hbody hty hmeth hr hj hv
           | «alias» t => simp [hbody] at hc
           | plain vs m =>
             cases hty : d.ty with
